@@ -62,6 +62,7 @@ type stOpts struct {
 	noIngest     bool
 	panicSig     string // signature for a panic in one of the station's own goroutines ("" = the process crashes, as before)
 	geo          int    // GeoIP database: 0 = none (empty database), 1 = every address has a country code and an ASN, 2 = country "unk" (no ASN lookup), 3 = lookups fail, 4 = IPv4-only database (IPv6 lookups fail with the MaxMind reader's error, which quotes the address)
+	extraKeys    int    // the station holds this many other private keys BEFORE its current one (key rotation: privkey_path names a directory); clients use the current key
 	realDetector bool   // keep the real sendToDetector / clearDetector and give them a go-redis client over a simulated connection
 }
 
@@ -222,7 +223,18 @@ func newStWorld(r *sim.Run, s *hook.Sched, tp *sim.Tape, o stOpts) *stWorld {
 	}
 	w.rm.AddTransport(pb.TransportType_Min, min.Transport{})
 	w.rm.AddTransport(pb.TransportType_Obfs4, obfs4.Transport{})
-	pt, err := prefix.Default([][32]byte{w.priv})
+	var stationKeys [][32]byte
+	for i := 0; i < o.extraKeys; i++ {
+		var k [32]byte
+		for j := range k {
+			k[j] = byte(0x51*(i+1) + 7*j)
+		}
+		k[0] &= 248
+		k[31] &= 127
+		k[31] |= 64
+		stationKeys = append(stationKeys, k)
+	}
+	pt, err := prefix.Default(append(stationKeys, w.priv))
 	if err != nil {
 		r.Fail("harness/station-prefix", "%v", err)
 		return nil
